@@ -1082,13 +1082,16 @@ func c12FaultyCompressor(r *eng.Run) {
 	} else {
 		r.Res.Nontrivial = true
 	}
-	// History, always within the documented contract ("after all data has
-	// been written client should call Flush()"): Write, Flush [, Close] or
-	// Write, Flush, Write, Flush, Close. Close without a preceding Flush on a
-	// compressor that has no Close method silently drops the unflushed data
-	// on the unchanged tree as well; that usage is outside the contract and
-	// is not generated (DESIGN §8).
-	hist := r.T.Int(sim.LHist, 3)
+	// History, within the documented contract ("after all data has been
+	// written client should call Flush()"): Write, Flush [, Close] or
+	// Write, Flush, Write, Flush, Close. A Close behind unflushed data that
+	// follows an earlier Flush silently drops that data on the unchanged tree
+	// (compressor without Close): outside the contract, not generated
+	// (DESIGN §8).
+	// (The fourth history, Write then Close with no Flush at all - the way the
+	// package's example server ends a message - is judged by one rule only:
+	// if every call reports success, what was sent inflates to the message.)
+	hist := r.T.Int(sim.LHist, 4)
 	var calls []string
 	allNil := true
 	flushed := true
@@ -1102,8 +1105,14 @@ func c12FaultyCompressor(r *eng.Run) {
 	written := append([]byte(nil), msg...)
 	_, werr := w.Write(msg)
 	do("Write", werr)
-	flushErr = w.Flush()
-	do("Flush", flushErr)
+	if hist == 3 {
+		flushed = false
+		do("Close", w.Close())
+		r.Probe("custom_compressor_message_ended_with_close_only")
+	} else {
+		flushErr = w.Flush()
+		do("Flush", flushErr)
+	}
 	switch hist {
 	case 1:
 		do("Close", w.Close())
@@ -1134,11 +1143,11 @@ func c12FaultyCompressor(r *eng.Run) {
 	if flushed && flushErr == nil && (mode == 0 || mode == 1 || mode == 3) {
 		r.Failf("bad_tail_not_reported", "compressor fault mode %d (flush without the 00 00 ff ff tail) was reported as success by Flush", mode)
 	}
-	if (mode == 4 || mode == 5) && !allNil {
+	if (mode == 4 || mode == 5) && !allNil && hist != 3 {
 		r.Failf("unexpected_error", "well-behaved compressor (mode %d): %v", mode, calls)
 	}
 	// The error is sticky.
-	if flushErr != nil {
+	if flushed && flushErr != nil {
 		if _, err := w.Write([]byte("x")); err == nil {
 			r.Failf("error_not_sticky", "wsflate.Writer accepted a Write after a failed Flush")
 		}
